@@ -1017,6 +1017,11 @@ func readTcbInfoTcbStatus(tcbInfo pcs.TcbInfo, tdQuoteBody *pb.TDQuoteBody, pckC
 			return pcs.TcbLevel{}, err
 		}
 		logger.V(2).Info("Tdx Module TCB Status found: ", matchingTdxModuleTcbLevel.TcbStatus)
+		// Both the platform TCB level and the TDX module TCB level must be UpToDate:
+		// a platform level with any other status decides the outcome.
+		if matchingTcbLevel.TcbStatus != pcs.TcbComponentStatusUpToDate {
+			return matchingTcbLevel, nil
+		}
 		return *matchingTdxModuleTcbLevel, nil
 	}
 
